@@ -223,6 +223,8 @@ var profiles = map[string]map[string]int{
 	"annotlate": {"scan": 30, "tick": 20, "pod_arrive": 3, "pod_schedule": 5, "pod_finish": 10, "launch": 2, "register": 4, "cordon": 2, "ext_taint": 8, "ext_untaint": 1, "force": 3, "annotate": 8, "node_gone": 1, "asg_edit": 0, "restart": 1, "lag": 0, "shuffle": 3},
 	// instances are replaced by the cloud (lost, relaunched, registered) between removals: membership changes while counts do not
 	"swap": {"scan": 30, "tick": 6, "pod_arrive": 2, "pod_schedule": 2, "pod_finish": 6, "launch": 12, "register": 12, "cordon": 0, "ext_taint": 4, "ext_untaint": 0, "force": 12, "annotate": 0, "node_gone": 12, "asg_edit": 0, "restart": 1, "lag": 0, "shuffle": 1},
+	// launch-template (fleet) groups under load, most scale-ups with a failing fleet step
+	"fleetfail": {"scan": 34, "tick": 10, "pod_arrive": 22, "pod_schedule": 4, "pod_finish": 3, "launch": 3, "register": 8, "cordon": 1, "ext_taint": 3, "ext_untaint": 0, "force": 2, "annotate": 0, "node_gone": 0, "asg_edit": 2, "restart": 1, "lag": 0, "shuffle": 2},
 	"lock": {"scan": 38, "tick": 16, "pod_arrive": 14, "pod_schedule": 4, "pod_finish": 4, "launch": 4, "register": 6, "cordon": 5, "ext_taint": 4, "ext_untaint": 0, "force": 3, "annotate": 0, "node_gone": 0, "asg_edit": 2, "restart": 2, "lag": 0, "shuffle": 1},
 }
 
@@ -305,8 +307,11 @@ func genCfg(r *rand.Rand, o genOpts) world.Cfg {
 	c.Starve = r.Intn(4) == 0
 	c.Auto = r.Intn(6) == 0
 	c.Effect = []string{"", "NoSchedule", "NoExecute", "PreferNoSchedule"}[r.Intn(4)]
-	if o.fleet && r.Intn(3) == 0 {
+	if o.fleet && (r.Intn(3) == 0 || o.profile == "fleetfail") {
 		c.Fleet = true
+	}
+	if o.profile == "fleetfail" {
+		c.Dry, c.Max = false, c.Max+3
 	}
 	return c
 }
